@@ -40,7 +40,13 @@ def gen(rng, tier):
         if i % 4 < 2:
             s.loads = []
         s.meta = {"kind": "near-axis"}
-        cases.append(core.case_from_struct(s, Weight=core.weights(i)))
+        c = core.case_from_struct(s, Weight=core.weights(i))
+        if c["Weight"] or any(not l["local"] for l in s.loads):
+            # the sine of such a bar comes out of a cancellation (dy = 3e-7 between coordinates of 27.3): it is exact to 1e-16, not to
+            # 1e-16 of itself, which is what the comparison of stage B assumes of its inputs - loads projected with it are judged by
+            # the oracle only
+            c["NoStage"] = True
+        cases.append(c)
     # a uniform downward load over the last part of a bar (it reaches the bar's end, not its start), with and without the weight
     for i in range(4 if tier == "quick" else 24):
         s = G.gen_single_bar(rng)
